@@ -256,7 +256,7 @@ pub fn family_of(group: &str) -> &'static str {
         "p1" | "p2" => "Monoclinic",
         "hex1" => "Hexagonal",
         "tet1" | "p4" => "Tetragonal",
-        "p2r" => "Monoclinic",
+        "p2r" | "p2mgM" => "Monoclinic",
         _ => "Orthorhombic",
     }
 }
